@@ -136,7 +136,7 @@ Definition is_uint32 (z : Z) : bool := ((0 <=? z) && (z <=? 4294967295))%Z.
 (* result of translating one operand: error, or flags/regmask plus the bits it adds to combined_reg_mask *)
 Inductive xres := XErr (e : N) | XOk (x : xlat) (combined : N).
 
-Definition xlat_operand (T : vtables) (x64 virt_ok : bool) (avx : N) (op : operand) : xres :=
+Definition xlat_operand (T : vtables) (x64 virt_ok : bool) (iflags avx : N) (op : operand) : xres :=
   let vd := if x64 then vt_vd64 T else vt_vd86 T in
   match op with
   | ONone => XErr E_InvalidState      (* not reached: the loop stops at the first none operand *)
@@ -146,6 +146,8 @@ Definition xlat_operand (T : vtables) (x64 virt_ok : bool) (avx : N) (op : opera
     if id <? VirtIdMin then
       if 32 <=? id then XErr E_InvalidPhysId else
       if negb (N.testbit (nthN (vd_reg_mask vd) rt) id) then XErr E_InvalidPhysId else
+      (* vector registers 16..31 need an EVEX prefix, which the instruction must have (4824306) *)
+      if (16 <=? id) && (RT_Vec128 <=? rt) && (rt <=? RT_Vec512) && negb (test iflags IF_Evex) then XErr E_InvalidPhysId else
       XOk {| x_flags := fl; x_regmask := bit id |} (bit id)
     else if negb virt_ok then XErr E_IllegalVirtReg
     else XOk {| x_flags := fl; x_regmask := 4294967295 |} 0
@@ -208,15 +210,15 @@ Definition xlat_operand (T : vtables) (x64 virt_ok : bool) (avx : N) (op : opera
 (* the translation loop: stops at the first none operand; returns the translated prefix, the rest, and the accumulators *)
 Record xstate := { xs_sigs : list (N * N); xs_flags : N; xs_regs : N; xs_mem : option operand }.
 
-Fixpoint xlat_all (T : vtables) (x64 virt_ok : bool) (avx : N) (ops : list operand) (st : xstate) : N + (xstate * list operand) :=
+Fixpoint xlat_all (T : vtables) (x64 virt_ok : bool) (iflags avx : N) (ops : list operand) (st : xstate) : N + (xstate * list operand) :=
   match ops with
   | [] => inr (st, [])
   | ONone :: rest => inr (st, ops)
   | op :: rest =>
-    match xlat_operand T x64 virt_ok avx op with
+    match xlat_operand T x64 virt_ok iflags avx op with
     | XErr e => inl e
     | XOk x comb =>
-      xlat_all T x64 virt_ok avx rest
+      xlat_all T x64 virt_ok iflags avx rest
         {| xs_sigs := xs_sigs st ++ [(N.land (x_flags x) MASK56, N.land (x_regmask x) 255)];
            xs_flags := N.lor (xs_flags st) (x_flags x);
            xs_regs := N.lor (xs_regs st) comb;
@@ -384,7 +386,7 @@ Definition validate (T : vtables) (zq x64 virt_ok : bool) (inst : vinst) (ops : 
   if negb (lock_err =? E_Ok) then lock_err else
   let rep_err := rep_stage options iflags in
   if negb (rep_err =? E_Ok) then rep_err else
-  match xlat_all T x64 virt_ok avx ops init_xstate with
+  match xlat_all T x64 virt_ok iflags avx ops init_xstate with
   | inl e => e
   | inr (st, rest) =>
     (* no gaps: everything after the first none operand must be none (the first one is none by construction) *)
@@ -590,8 +592,8 @@ Definition rep_ops (x64 : bool) (row : dbrow) : list operand := map (rep_operand
 
 (* the premises of the row-level acceptance theorem, evaluated on the representative operands of a row *)
 Definition rep_premises (T : vtables) (x64 : bool) (row : dbrow) : bool :=
-  let '(_, avx, _, _) := nth (N.to_nat (dr_inst row)) (vt_inst T) (0, 0, 0, 0) in
-  match xlat_all T x64 false avx (rep_ops x64 row) init_xstate with
+  let '(iflags, avx, _, _) := nth (N.to_nat (dr_inst row)) (vt_inst T) (0, 0, 0, 0) in
+  match xlat_all T x64 false iflags avx (rep_ops x64 row) init_xstate with
   | inr (st, rest) => forallb is_none rest && fits_all (explicit_ops (dr_ops row)) (xs_sigs st) && (mode_stage x64 0 st =? E_Ok)
   | inl _ => false
   end.
@@ -608,7 +610,7 @@ Definition rep_decor_premises (T : vtables) (x64 : bool) (dr : dbrow * N * N * N
   let ops := rep_ops x64 row in
   let '(iflags, avx, _, _) := nth (N.to_nat (dr_inst row)) (vt_inst T) (0, 0, 0, 0) in
   row_present T row &&
-  match xlat_all T x64 false avx ops init_xstate with
+  match xlat_all T x64 false iflags avx ops init_xstate with
   | inr (st, rest) =>
     forallb is_none rest && fits_all (explicit_ops (dr_ops row)) (xs_sigs st) &&
     (lock_stage options iflags (first_is_mem ops) =? E_Ok) && (rep_stage options iflags =? E_Ok) && (mode_stage x64 options st =? E_Ok) &&
